@@ -142,11 +142,16 @@ Definition is_stale_na (evs : list ev) (t1 t2 t3 period : Z) : bool :=
    a_spawn: -> the heartBeat goroutine captures its first `now`. *)
 Record acq_lat := mkAcq { a_now : Z; a_chtimes : Z; a_spawn : Z }.
 
-(* latencies of one iteration of heartBeat's loop, lockfile.go:62-73, counted from `now := time.Now()` (:66):
-   c_open: -> OpenFile(O_WRONLY|O_CREATE|O_TRUNC) lands (file exists, stamped by the file system);
-   c_write: -> the write lands (stamped again); c_chtimes: -> Chtimes(file, now, now) lands (mtime := now);
-   c_sleep: everything beyond the nominal `period - 1ms` of SleepWithContext until the next `now`. *)
-Record cyc_lat := mkCyc { c_open : Z; c_write : Z; c_chtimes : Z; c_sleep : Z }.
+(* One iteration of heartBeat's loop, lockfile.go:62-73.  Latencies are counted from `now := time.Now()` (:66):
+   c_open: -> OpenFile(O_WRONLY|O_CREATE|O_TRUNC) lands (file exists, stamped by the file system) or fails;
+   c_write: -> the write lands (stamped again) or fails; c_chtimes: -> Chtimes(file, now, now) lands (mtime := now)
+   or fails; c_sleep: everything beyond the nominal `period - 1ms` of SleepWithContext until the next `now`.
+   c_fault: the ERRORS OF THE WRITE ARE IGNORED by the loop (`_ = fs.WriteFile`, `_ = fs.Chtimes`): a failed
+   operation loses that sign of life and nothing else, the next iteration starts as if nothing had happened.
+   The loop ends only when its context is cancelled (:63): a holder whose context is cancelled after n iterations
+   is the trace of n iterations ([cycles_events] over a list of length n). *)
+Inductive fault := FNone | FOpen | FWrite | FChtimes.
+Record cyc_lat := mkCyc { c_open : Z; c_write : Z; c_chtimes : Z; c_sleep : Z; c_fault : fault }.
 
 Definition acquire_events (t0 : Z) (a : acq_lat) : list ev :=
   [ mkEv t0 ODir t0 t0;
@@ -154,23 +159,47 @@ Definition acquire_events (t0 : Z) (a : acq_lat) : list ev :=
 
 Definition first_start (t0 : Z) (a : acq_lat) : Z := t0 + a_now a + a_chtimes a + a_spawn a.
 
-Definition cycle_events (s : Z) (c : cyc_lat) : list ev :=
-  [ mkEv (s + c_open c) OHb (s + c_open c) s;
-    mkEv (s + c_open c + c_write c) OHb (s + c_open c + c_write c) s;
-    mkEv (s + c_open c + c_write c + c_chtimes c) OHb s s ].
+Definition ev_create (s : Z) (c : cyc_lat) : ev := mkEv (s + c_open c) OHb (s + c_open c) s.
+Definition ev_write (s : Z) (c : cyc_lat) : ev := mkEv (s + c_open c + c_write c) OHb (s + c_open c + c_write c) s.
+Definition ev_stamp (s : Z) (c : cyc_lat) : ev := mkEv (s + c_open c + c_write c + c_chtimes c) OHb s s.
+
+(* [ex]: the heartbeat file already exists (an earlier iteration managed to create it).
+   FOpen: WriteFile fails at OpenFile, nothing is written; Chtimes still runs and lands iff the file exists.
+   FWrite: the file is created/truncated (stamped), the write fails, Chtimes lands.
+   FChtimes: created and written (stamped by the file system), the explicit stamp is lost. *)
+Definition cycle_events (s : Z) (ex : bool) (c : cyc_lat) : list ev :=
+  match c_fault c with
+  | FNone => [ev_create s c; ev_write s c; ev_stamp s c]
+  | FOpen => if ex then [ev_stamp s c] else []
+  | FWrite => [ev_create s c; ev_stamp s c]
+  | FChtimes => [ev_create s c; ev_write s c]
+  end.
+
+Definition opened (c : cyc_lat) : bool := match c_fault c with FOpen => false | _ => true end.
 
 Definition cyc_total (c : cyc_lat) : Z := c_open c + c_write c + c_chtimes c + c_sleep c.
 
 Definition next_start (s : Z) (c : cyc_lat) (period : Z) : Z := s + cyc_total c + (period - ms).
 
-Fixpoint cycles_events (s : Z) (cs : list cyc_lat) (period : Z) : list ev :=
+Fixpoint cycles_events (s : Z) (ex : bool) (cs : list cyc_lat) (period : Z) : list ev :=
   match cs with
   | [] => []
-  | c :: r => cycle_events s c ++ cycles_events (next_start s c period) r period
+  | c :: r => cycle_events s ex c ++ cycles_events (next_start s c period) (ex || opened c) r period
   end.
 
+(* the instants at which the iterations capture their `now` *)
+Fixpoint cycle_starts (s : Z) (cs : list cyc_lat) (period : Z) : list Z :=
+  match cs with
+  | [] => []
+  | c :: r => s :: cycle_starts (next_start s c period) r period
+  end.
+
+(* the instant at which the iteration after the last one captures its `now` (with no over-sleep) *)
+Fixpoint end_start (s : Z) (cs : list cyc_lat) (p : Z) : Z :=
+  match cs with [] => s | c :: r => end_start (next_start s c p) r p end.
+
 Definition holder_trace (t0 : Z) (a : acq_lat) (cs : list cyc_lat) (period : Z) : list ev :=
-  acquire_events t0 a ++ cycles_events (first_start t0 a) cs period.
+  acquire_events t0 a ++ cycles_events (first_start t0 a) false cs period.
 
 (* the holder dies after its k-th file-system operation: nothing after it ever lands *)
 Definition dead_after (k : nat) (tr : list ev) : list ev := firstn k tr.
@@ -211,7 +240,12 @@ Inductive case :=
    in [l1, h1], its StatTimes in [l2, h2], time.Since in [l3, h3]. *)
 | CTrace (period : Z) (early late : list ev) (l1 h1 l2 h2 l3 h3 : Z) (got : bool)
 (* the recorded operations of a real holder are those of the holder machine run with the measured latencies *)
-| CHolder (period : Z) (t0 : Z) (a : acq_lat) (cs : list cyc_lat) (k : nat) (observed : list ev).
+(* [cancel]: the instant at which the holder's context was cancelled (no Unlock), if it was: the loop checks its
+   context before every `now`, so at most ONE iteration (whose check had already passed) starts after it.
+   [alive_until]: an instant up to which the holder was alive with a live context and the process demonstrably
+   responsive (reference sleeper): the loop never ends by itself (errors of its writes are ignored), so the next
+   iteration is due at [end_start]; more than 10 periods of silence are not a run of the machine *)
+| CHolder (period : Z) (t0 : Z) (a : acq_lat) (cs : list cyc_lat) (k : nat) (observed : list ev) (cancel alive_until : option Z).
 
 Definition check_case (c : case) : bool :=
   match c with
@@ -229,6 +263,14 @@ Definition check_case (c : case) : bool :=
       (* the answer is monotone: later landing, earlier reading, later evaluation => staler *)
       if got then is_stale_na late l1 l2 h3 p       (* the stalest reading consistent with the record must be stale *)
       else negb (is_stale_na early h1 h2 l3 p)      (* the freshest one must not be *)
-  | CHolder p t0 a cs k observed =>
+  | CHolder p t0 a cs k observed cancel alive_until =>
       acq_nonneg a && forallb cyc_nonneg cs && evs_eqb (dead_after k (holder_trace t0 a cs p)) observed
+      && match cancel with
+         | None => true
+         | Some tc => Nat.leb (length (filter (fun s => tc <? s) (cycle_starts (first_start t0 a) cs p))) 1
+         end
+      && match alive_until with
+         | None => true
+         | Some t => t <=? end_start (first_start t0 a) cs p + 10 * p
+         end
   end.
